@@ -221,6 +221,17 @@ let judge _id (c : cursor) (r : cursor) : bool * string =
         | "mdp.d" -> "MDP::Model::sampleSR" | "mdp.s" -> "MDP::SparseModel::sampleSR"
         | "pomdp.dd" | "pomdp.ds" -> "POMDP::Model" | _ -> "POMDP::SparseModel") in
     if (not (at_end r)) && is_crash (peek r) then oracle_fail "no_UB" site "abnormal termination";
+    (* the sparse classes re-validate what they store: construction throws invalid_argument exactly when
+       a stored row (input row without its entries <= 1e-6) misses one by more than 1e-6 *)
+    let expect_throw = (mdp_sparse && not (sparse_store_ok p_in)) || (pomdp_sparse && not (sparse_store_ok ob_in)) in
+    let threw = (not (at_end r)) && peek r = "THROW" in
+    if threw && not expect_throw then disagree "sparse_store_validation" site ("construction threw " ^ (ignore (next r); if at_end r then "?" else peek r) ^ " although every stored row is within 1e-6 of one");
+    if expect_throw && not threw then disagree "sparse_store_validation" site "construction accepted a table whose stored rows (entries <= 1e-6 dropped) miss one by more than 1e-6";
+    if threw then begin
+      ignore (next r);
+      if next r <> "invalid_argument" then disagree "sparse_store_validation" site "wrong exception type";
+      (true, "sr." ^ variant ^ ".throw")
+    end else begin
     (* the model's own rows, as returned by its getters *)
     let trow_i = next_qs r in let rew_i = next_qs r in
     let orows_i = if is_pomdp then take ns (fun () -> next_qs r) else [] in
@@ -267,6 +278,7 @@ let judge _id (c : cursor) (r : cursor) : bool * string =
     if not (vec_eq trow_i (trow md s a)) then disagree "stored_transition_row" site ("impl " ^ str_qs trow_i ^ " model " ^ str_qs (trow md s a));
     if is_pomdp then List.iteri (fun s1 row -> if not (vec_eq row (orow pmd (nat_of_int s1) a)) then disagree "stored_observation_row" site "differ") orows_i;
     (ns > 1, "sr." ^ variant)
+    end
   | k -> failwith ("unknown case kind " ^ k)
 
 let () = main_loop judge
